@@ -14,7 +14,16 @@ use crate::refgeom::measure::twice_area_ring;
 use crate::refgeom::Poly;
 use std::collections::HashMap;
 
-pub const BOARD: usize = 6;
+pub const BOARD: usize = 8;
+
+/// largest board edge the strategies draw (6 in the quick tier, 8 = BOARD in the thorough tier; set by the engine)
+static MAX_G: std::sync::atomic::AtomicUsize = std::sync::atomic::AtomicUsize::new(6);
+pub fn max_g() -> usize {
+    MAX_G.load(std::sync::atomic::Ordering::Relaxed)
+}
+pub fn set_max_g(g: usize) {
+    MAX_G.store(g.clamp(1, BOARD), std::sync::atomic::Ordering::Relaxed)
+}
 
 /// cells[j*BOARD+i] = filled; only i,j < g are looked at
 pub fn trace(cells: &[bool], g: usize, merge_sel: u64) -> Vec<Poly> {
